@@ -138,7 +138,7 @@ class FilterFunctions:
             # a conservative extension (cnt / sel are new symbols; for n >= 0 such functions exist by MONO/STRICT/SEL):
             # global, so that forks and clause evaluations see it as well
             for ax in axioms(cnt, sel, lambda t: z3.substitute(g, (canon, t)), n):
-                self.ex.global_axioms.append(z3.Implies(n >= 0, ax))
+                self.ex.local_axioms.append(z3.Implies(n >= 0, ax))
         cnt, sel, g, n = self.table[key]
         return cnt, sel
 
